@@ -101,7 +101,7 @@ class RecordingLogger:
         self._rec('ERRO', msg)
 
     def warn(self, msg, **kw):
-        if self.inst.world.keep_warnings:
+        if self.inst.world.keep_warnings or 'stealth restart' in str(msg):   # (used by the C12 / C07 diagnoses)
             self._rec('WARN', msg)
 
     def info(self, msg, **kw):
